@@ -31,7 +31,15 @@ func RunC06Waits(r *common.Run) {
 	var rec func(prefix []string, depth int)
 	rec = func(prefix []string, depth int) {
 		if len(prefix) > 0 {
-			if len(r.Failures) >= 60 || r.Hist["problem"] >= 25 {
+			// stop on a broken tree (a watchdog per case), but do not let the recorded known finding
+			// of C18 (a refused Leave) use up the budget
+			fresh := 0
+			for _, f := range r.Failures {
+				if f.Key != "not-joined-after-error-reply-to-leave" {
+					fresh++
+				}
+			}
+			if fresh >= 40 || r.Hist["problem"] >= 25 {
 				return
 			}
 			r.Mark("case muc-episodes %d", n)
